@@ -9,6 +9,7 @@ CONSTANTS
   Extra <- NoExtra
   GFirst = TRUE
   SelDet = FALSE
+  RecSteps = TRUE
   LogOn = FALSE
 PROPERTY Termination
 CHECK_DEADLOCK TRUE
